@@ -621,12 +621,98 @@ for _tag, _cat, _entry in {specs!r}:
 '''
 
 
-def write_module(path: Path, log: Path, cats, producers=None, consumers=None):
+# one task returning SEVERAL values into several entries of one catalog (multi-leaf `produces`), optionally with a provisional
+# entry (a DirectoryNode registered with catalog.add) at some position of the tuple; every ordinary entry must get ITS value
+MULTI = '''\
+from pytask import DirectoryNode
+_M = @@SPEC@@
+_mc = CATS[tuple(_M["cat"])]
+_nodes = [_mc[_s(e)] for e in _M["entries"]]
+for _j, _pos in enumerate(_M["prov"]):
+    _mc.add("files%d_" % _j + _M["tag"], DirectoryNode(root_dir=Path(__file__).parent / ("dir%d_" % _j + _M["tag"]), pattern="*.txt"))
+    _nodes.insert(_pos, _mc["files%d_" % _j + _M["tag"]])
+
+@task(id=_M["tag"], produces=tuple(_nodes))
+def produce_many():
+    vals = [pickle.loads(base64.b64decode(b)) for b in _M["values"]]
+    for e, v in zip(_M["entries"], vals):
+        _log({"k": "prod", "tag": _M["tag"], "cat": _M["cat"], "entry": e, "canon": canon(v)})
+    for j, pos in enumerate(_M["prov"]):
+        d = Path(__file__).parent / ("dir%d_" % j + _M["tag"])
+        d.mkdir(exist_ok=True)
+        (d / "f.txt").write_text("x")
+        vals.insert(pos, None)
+    return tuple(vals)
+'''
+
+# a catalog whose entries live in memory (default_node=PythonNode): values travel within ONE build; dependents take several
+# entries inside ONE container argument (dict / list / tuple / nested), also mixed with plain values
+MEMORY = '''\
+from pytask import PythonNode
+_MEMNAME = @@NAME@@
+MEM = DataCatalog(name=_s(_MEMNAME), default_node=PythonNode)
+
+for _tag, _entry, _b64 in @@PRODS@@:
+    def _make(tag=_tag, entry=_entry, b=_b64):
+        @task(id=tag, produces=MEM[_s(entry)])
+        def produce_mem():
+            v = pickle.loads(base64.b64decode(b))
+            _log({"k": "prod", "tag": tag, "cat": _MEMNAME, "entry": entry, "canon": canon(v)})
+            return v
+    _make()
+
+
+def _build(shape, slots):
+    items = [MEM[_s(x)] if k == "e" else pickle.loads(base64.b64decode(x)) for k, x in slots]
+    if shape == "list":
+        return items
+    if shape == "tuple":
+        return tuple(items)
+    if shape == "dict":
+        return {"k%d" % i: it for i, it in enumerate(items)}
+    return {"in": [items[0], tuple(items[1:])], "n": 0}      # nested; one extra plain leaf at the end
+
+
+def _unbuild(shape, data, n):
+    """the leaves of the received argument in declaration order (by the DECLARED shape: received values may be containers)"""
+    try:
+        if shape in ("list", "tuple"):
+            return list(data) if isinstance(data, (list, tuple)) else None
+        if shape == "dict":
+            return [data["k%d" % i] for i in range(n)] if isinstance(data, dict) and len(data) == n else None
+        first, rest = data["in"]
+        return [first, *rest, data["n"]]
+    except Exception:
+        return None
+
+
+for _tag, _shape, _slots in @@CONS@@:
+    def _make(tag=_tag, shape=_shape, slots=_slots):
+        @task(id=tag, kwargs={"data": _build(shape, slots)})
+        def consume_many(data, out: Annotated[Path, Product] = Path(__file__).parent / ("out_" + tag + ".txt")):
+            flat = _unbuild(shape, data, len(slots))
+            _log({"k": "shape", "tag": tag, "n": -1 if flat is None else len(flat), "want": len(slots) + (1 if shape == "nested" else 0)})
+            flat = flat or []
+            for (k, x), got in zip(slots, flat):
+                if k == "e":
+                    _log({"k": "cons", "tag": tag, "cat": _MEMNAME, "entry": x, "canon": canon(got)})
+                else:
+                    _log({"k": "plain", "tag": tag, "want": canon(pickle.loads(base64.b64decode(x))), "canon": canon(got)})
+            out.write_text("done")
+    _make()
+'''
+
+
+def write_module(path: Path, log: Path, cats, producers=None, consumers=None, multi=None, memory=None):
     src = MODULE_HEAD.format(canon_src=CANON_SRC, log=str(log), cats=cats)
     if producers:
         src += PRODUCERS.format(specs=producers)
     if consumers:
         src += CONSUMERS.format(specs=consumers)
+    if multi:
+        src += MULTI.replace("@@SPEC@@", repr(multi))
+    if memory:
+        src += MEMORY.replace("@@NAME@@", repr(memory["name"])).replace("@@PRODS@@", repr(memory["prods"])).replace("@@CONS@@", repr(memory["cons"]))
     path.parent.mkdir(parents=True, exist_ok=True)
     path.write_text(src)
 
@@ -651,8 +737,29 @@ def random_e2e(rng, pid: int, f5: bool):
             a, b = random_value(rng), random_value(rng)
         v1.append(b64(a))
         v2.append(b64(b))
+    # one producer with a multi-leaf return over 1-3 fresh entries of one catalog, with 0-2 provisional entries in between
+    m_entries = [f"m{j}" + rng.choice(["", " ", "é"]) for j in range(rng.randint(1, 3))]
+    nprov = rng.choice([0, 1, 1, 1, 2])
+    multi = {"tag": "pm", "cat": cps(cats[0]), "entries": [cps(e) for e in m_entries],
+             "prov": sorted(rng.randint(0, len(m_entries)) for _ in range(nprov)),      # insert positions, applied left to right
+             "values": [b64(random_value(rng)) for _ in m_entries]}
+    # an in-memory catalog: producers into single entries, dependents taking several entries in one container argument
+    mem_entries = [rng.choice(["a", "b", "A", "é", "x y", ""]) + str(j) for j in range(rng.randint(2, 4))]
+    plain = lambda: b64(rng.choice([rng.randint(-9, 9), rand_unicode(rng, 4), None, rng.random(), True]))   # noqa: E731
+    cons = []
+    for j in range(rng.randint(2, 3)):
+        shape = rng.choice(["dict", "list", "tuple", "nested"])
+        k_e = rng.randint(2, len(mem_entries))
+        slots = [["e", cps(e)] for e in rng.sample(mem_entries, k_e)]
+        if rng.random() < 0.5:         # mixed with plain values
+            for _ in range(rng.randint(1, 2)):
+                slots.insert(rng.randint(0, len(slots)), ["v", plain()])
+        cons.append([f"cm{j}", shape, slots])
+    cons.append(["cm_single", "list", [["e", cps(mem_entries[0])]]])
+    memory = {"name": cps("mem-" + base), "prods": [[f"pmem{j}", cps(e), b64(random_value(rng))] for j, e in enumerate(mem_entries)],
+              "cons": cons, "hashseed": rng.randrange(1, 1 << 16)}
     return {"id": f"e{pid}", "cats": [cps(c) for c in cats], "pairs": [[cps(c), cps(e)] for c, e in pairs],
-            "v1": v1, "v2": v2,
+            "v1": v1, "v2": v2, "multi": None if f5 else multi, "memory": None if f5 else memory,
             "hashseeds": [rng.randrange(1, 1 << 16) for _ in range(3)], "f5": f5, "split": rng.randint(1, max(1, len(pairs) - 1))}
 
 
@@ -661,14 +768,17 @@ def run_e2e(ctx, base: Path, case: dict):
     (3) module B re-written with new values + more consumers. Returns (logs per build, build results)."""
     proj = new_project(base, "e2e_" + case["id"])
     log = proj / "log.jsonl"
-    cats, pairs, k = case["cats"], case["pairs"], case["split"]
+    cats, k = case["cats"], case["split"]
+    multi, memory = case.get("multi"), case.get("memory")
+    pairs = case["pairs"]
+    allpairs = pairs + ([[multi["cat"], e] for e in multi["entries"]] if multi else [])    # every ordinary entry gets dependents
     specA = [[f"pa{i}", c, e, case["v1"][i]] for i, (c, e) in enumerate(pairs[:k])]
     specB = [[f"pb{i}", c, e, case["v1"][k + i]] for i, (c, e) in enumerate(pairs[k:])]
-    cons1 = [[f"c1_{i}", c, e] for i, (c, e) in enumerate(pairs)]
-    write_module(proj / "task_a.py", log, cats, producers=specA)
+    cons1 = [[f"c1_{i}", c, e] for i, (c, e) in enumerate(allpairs)]
+    write_module(proj / "task_a.py", log, cats, producers=specA, multi=multi)
     write_module(proj / "task_b.py", log, cats, producers=specB, consumers=cons1[::2])
     # every second entry has two dependents in the first build (task_b and task_c), each modifying its own copy
-    write_module(proj / "task_c.py", log, cats, consumers=cons1[1::2] + [[f"d1_{i}", c, e] for i, (c, e) in enumerate(pairs)][::2])
+    write_module(proj / "task_c.py", log, cats, consumers=cons1[1::2] + [[f"d1_{i}", c, e] for i, (c, e) in enumerate(allpairs)][::2])
     builds, logs = [], []
 
     def build(i):
@@ -679,12 +789,18 @@ def run_e2e(ctx, base: Path, case: dict):
         logs.append(lines[done:])
 
     build(0)
-    write_module(proj / "sub" / "task_late.py", log, cats, consumers=[[f"c2_{i}", c, e] for i, (c, e) in enumerate(pairs)])
+    write_module(proj / "sub" / "task_late.py", log, cats, consumers=[[f"c2_{i}", c, e] for i, (c, e) in enumerate(allpairs)])
     build(1)
     specB2 = [[f"pb{i}", c, e, case["v2"][k + i]] for i, (c, e) in enumerate(pairs[k:])]
     write_module(proj / "task_b.py", log, cats, producers=specB2, consumers=cons1[::2])
-    write_module(proj / "task_z.py", log, cats, consumers=[[f"c3_{i}", c, e] for i, (c, e) in enumerate(pairs)])
+    write_module(proj / "task_z.py", log, cats, consumers=[[f"c3_{i}", c, e] for i, (c, e) in enumerate(allpairs)])
     build(2)
+    if memory:      # "build 3": a separate project with the in-memory catalog, one build
+        mproj = new_project(base, "e2e_mem_" + case["id"])
+        mlog = mproj / "log.jsonl"
+        write_module(mproj / "task_mem.py", mlog, [], memory=memory)
+        builds.append(run_build([str(mproj)], memory["hashseed"], mproj / "res.json"))
+        logs.append([json.loads(l) for l in mlog.read_text().splitlines()] if mlog.exists() else [])
     return proj, builds, logs
 
 
@@ -693,8 +809,11 @@ def check_e2e(ctx, case: dict, builds, logs):
     names = [s_of(c) for c in case["cats"]]
     only_doc = all(doc_ok(n) for n in names)
     fid = None if only_doc else "F5"
-    n = len(case["pairs"])
-    ctx.case(["e2e", case["pairs"], case["v1"], case["v2"]], True, {"catalogs": [x[:20] for x in names], "pairs": n})
+    multi, memory = case.get("multi"), case.get("memory")
+    n = len(case["pairs"]) + (len(multi["entries"]) if multi else 0)
+    ctx.case(["e2e", case["pairs"], case["v1"], case["v2"], multi, memory], True, {"catalogs": [x[:20] for x in names], "pairs": n})
+    if multi:
+        ctx.dist[f"e2e:multi_return entries={len(multi['entries'])} provisional_at={multi['prov']}"] += 1
     if not only_doc:
         # a project that constructs a catalog with an undocumented name: the property demands rejection, i.e. every build
         # fails while collecting (ValueError from the validator when the module is imported) and no task body runs
@@ -709,9 +828,21 @@ def check_e2e(ctx, case: dict, builds, logs):
                           f"exit code {b['exit_code']} / {b['crash']}", rep, finding=fid)
             return
     last: dict[tuple, str] = {}
-    ncons = [0, 0, 0]
+    ncons = [0] * len(logs)
     for i, lines in enumerate(logs):
         for rec in lines:
+            if rec["k"] == "shape":
+                if rec["n"] != rec["want"]:
+                    ctx.violation(f"e2e-value: dependent {rec['tag']} (build {i}) received a container argument with {rec['n']} leaves, "
+                                  f"declared with {rec['want']}", rep, finding=fid)
+                    return
+                continue
+            if rec["k"] == "plain":
+                if rec["want"] != rec["canon"]:
+                    ctx.violation(f"e2e-value: dependent {rec['tag']} (build {i}) received {rec['canon'][:60]!r} for the plain value "
+                                  f"{rec['want'][:60]!r} given next to catalog entries", rep, finding=fid)
+                    return
+                continue
             key = (tuple(rec["cat"]), tuple(rec["entry"]))
             if rec["k"] == "prod":
                 last[key] = rec["canon"]
@@ -724,8 +855,9 @@ def check_e2e(ctx, case: dict, builds, logs):
                     return
     ctx.dist[f"e2e:consumers_run={ncons}"] += 1
     # non-vacuity of the observation: new consumers of builds 1 and 2 must have run
-    if ncons[0] < n or ncons[1] < n or ncons[2] < n:
-        ctx.violation(f"e2e-missing: consumers that had never run did not run (per build: {ncons}, expected ≥ {n} each)", rep, finding=fid)
+    want = [n, n, n] + ([sum(1 for _, _, sl in memory["cons"] for k, _ in sl if k == "e")] if memory else [])
+    if any(got < w for got, w in zip(ncons, want)):
+        ctx.violation(f"e2e-missing: consumers that had never run did not run (per build: {ncons}, expected ≥ {want})", rep, finding=fid)
 
 
 # ---------------------------------------------------------------------------------------------
